@@ -111,6 +111,12 @@ def run(ctx):
     ]
     for t in fixed:
         cases += cases_for(ctx, t, 3, rng)
+    # linear flattening over several levels of a depth-4 tree whose middle fiber ends with an empty sub-fiber (the shape of the merged lower ranks has to be
+    # learnt from the siblings)
+    t4 = {"k": "F", "e": [[0, {"k": "F", "e": [[1, {"k": "F", "e": [[1, L((2, 1))]]}]]}],
+                          [1, {"k": "F", "e": [[0, {"k": "F", "e": [[0, L((1, 1), (3, 2))], [2, L((0, 2))]]}], [1, {"k": "F", "e": [[0, L((2, 1))], [1, L((0, 2), (3, 1))]]}], [2, E]]}]]}
+    for d, lv in ((0, 3), (0, 2), (1, 2), (0, 1), (1, 1)):
+        cases.append({"op": "flatten", "tree": t4, "depth": 4, "d": d, "levels": lv, "style": "linear", "via": "tensor"})
     for _ in range(90 if ctx.quick else 1000):
         depth = rng.choice([3, 4])
         cases += cases_for(ctx, rand_tree(rng, 3, depth, pz=0.2, pabs=0.3), depth, rng)
